@@ -505,3 +505,11 @@ func sortedKeys[V any](m map[string]V) []string {
 	sort.Strings(ks)
 	return ks
 }
+
+// dumpRepo: the tree the survey sub-commands (cmps, formulas, siblings, divs) read; VERIF_REPO overrides /repo.
+func dumpRepo() string {
+	if r := os.Getenv("VERIF_REPO"); r != "" {
+		return r
+	}
+	return "/repo"
+}
